@@ -516,7 +516,10 @@ class PolygonTensor(PolytopeTensor):
                     ]
                 )
             else:
-                return list(result[self.contains(result) & other.contains(result)])
+                ind = self.contains(result) & other.contains(result)
+                if result.free_indices > 0:
+                    return list(result[ind])
+                return [result] if ind else []
 
         try:
             result = self._plane.meet(other)
@@ -528,7 +531,10 @@ class PolygonTensor(PolytopeTensor):
             result = cast(PlaneTensor, self._plane[~e.dependent_values]).meet(other)
             return list(result[PolygonCollection.from_tensor(self[~e.dependent_values]).contains(result)])
         else:
-            return list(result[self.contains(result)])
+            ind = self.contains(result)
+            if result.free_indices > 0:
+                return list(result[ind])
+            return [result] if ind else []
 
     def _normalized_projection(self) -> np.ndarray:
         points = self.array
